@@ -311,6 +311,45 @@ def rate_test_call_trees(ctx, rate, ncalls, seed):
                             f"rate {rate}: {got} of {n} calls of {fn} traced (it is called from / calls other traced functions), acceptance interval [{lo}, {hi}]", raise_=False)
 
 
+def _make_primed(n):
+    def local_gen(x):
+        yield x
+        x = str(x)
+        yield x
+        yield 1.5
+
+    g = local_gen(n)
+    next(g)  # primed here, where its function is findable (a local of this frame) ...
+    return g  # ... and resumed by whoever receives it
+
+
+def rate_test_primed_generators(ctx, rate, ncalls, seed):
+    """a locally defined generator, primed by its definer and resumed from another stack, many times over: about one of its
+    calls in N is traced (a call that was not sampled leaves nothing behind that could affect later calls)"""
+    lg = Keep()
+    random.seed(seed)
+    code = [c for c in _make_primed.__code__.co_consts if hasattr(c, "co_name") and c.co_name == "local_gen"][0]
+    with trace_calls(lg, 0, lambda c: c is code, rate):
+        for i in range(ncalls):
+            g = _make_primed(i)
+            for _ in g:
+                pass
+    spec = ["RATEPRIMED", rate, ncalls, seed]
+    ctx.case(spec, True, ["rate-workload-primed-local-generators:%s" % rate])
+    got = len(lg.traces)
+    for t in lg.traces:
+        if dict(t.arg_types) != {"x": int}:
+            return ctx.fail("C18/argument-types-differ:generator-under-sampling", spec, f"local_gen called with an int logged with {t.arg_types}", raise_=False)
+    if rate in (None, 1):
+        if got != ncalls:
+            ctx.fail("C18/rate-unset-or-1-not-all-traced", spec, f"{got} of {ncalls} calls of a locally defined, primed generator traced with rate {rate}", raise_=False)
+        return
+    lo, hi = interval(ncalls, 1.0 / rate)
+    if not lo <= got <= hi:
+        ctx.fail("C18/traced-fraction-outside-binomial-bounds", spec,
+                 f"rate {rate}: {got} of {ncalls} calls of a locally defined generator (primed by its definer, resumed elsewhere) traced, acceptance interval [{lo}, {hi}]", raise_=False)
+
+
 def rate_test_nested(ctx, outer_rate, inner_rate, ncalls, seed):
     """a tracing context entered inside another one samples at ITS OWN rate and logs to ITS OWN logger"""
     outer, inner = Count(), Count()
@@ -510,6 +549,7 @@ def shard(ctx):
         if i % ctx.nshards == ctx.shard:
             rate_test(ctx, r, n if r != 100 else n, ctx.seed * 1000 + s)
             rate_test_config(ctx, r, n // 4, ctx.seed * 1000 + s + 3)
+            rate_test_primed_generators(ctx, r, n // 8, ctx.seed * 1000 + s + 41)
             if r not in (None, 1):
                 rate_test_call_trees(ctx, r, n // 4, ctx.seed * 1000 + s + 37)
                 rate_test_sessions(ctx, r, 3000 if q else 20000, ctx.seed * 1000 + s + 29)
@@ -529,6 +569,8 @@ def run(ctx):
 def replay(ctx, case):
     if case[0] == "RATE":
         return rate_test(ctx, case[1], case[2], case[3])
+    if case[0] == "RATEPRIMED":
+        return rate_test_primed_generators(ctx, case[1], case[2], case[3])
     if case[0] == "RATETREES":
         return rate_test_call_trees(ctx, case[1], case[2], case[3])
     if case[0] == "RATESESSIONS":
